@@ -41,3 +41,40 @@ func VerifBuildNegativeAck(a *AcksToSend) [][2]uint32 {
 	}
 	return out
 }
+
+// ---- simulator outcome (C36) ----
+
+type VerifMessage struct {
+	Src, Dst int
+	Message  string
+}
+
+type VerifOutcome struct {
+	Sent, Received map[VerifMessage]int
+	AcquiredMemory []int64
+	MemoryLimit    []int64
+	Allocated      int
+	Deallocated    int
+}
+
+// VerifRunSimulator runs FuzzDyukov and returns what the simulator context held when the network had settled.
+func VerifRunSimulator(cmds []byte, restarts bool) *VerifOutcome {
+	var out *VerifOutcome
+	VerifObserveHook = func(f *FuzzTransportContext) {
+		o := &VerifOutcome{Sent: map[VerifMessage]int{}, Received: map[VerifMessage]int{}, Allocated: f.allocatedMessages, Deallocated: f.deallocatedMessages}
+		for m, n := range f.sentMessages {
+			o.Sent[VerifMessage{m.src, m.dst, m.message}] = n
+		}
+		for m, n := range f.receivedMessages {
+			o.Received[VerifMessage{m.src, m.dst, m.message}] = n
+		}
+		for _, t := range f.ts {
+			o.AcquiredMemory = append(o.AcquiredMemory, t.acquiredMemory)
+			o.MemoryLimit = append(o.MemoryLimit, t.incomingMessagesMemoryLimit)
+		}
+		out = o
+	}
+	defer func() { VerifObserveHook = nil }()
+	FuzzDyukov(cmds, restarts)
+	return out
+}
